@@ -10,7 +10,7 @@ use vcore::Outcome;
 
 use crate::{
     cmsg::{run_cmsg, BufKind, CmsgCase, Data, Msg},
-    frames::{run_frames, run_hostile, CodecKind, Doc, FrameCase, Framer, HostileCase, Items},
+    frames::{run_frames, run_hostile, CodecKind, Excl, Doc, FrameCase, Framer, HostileCase, Items},
     mock::Frag,
 };
 
@@ -74,7 +74,7 @@ pub fn decode(bytes: &[u8]) -> Result<Input> {
             let rsched = frags(&mut u)?;
             let rcap = u.arbitrary::<u8>()? as u16;
             let stream = u.take_rest().to_vec();
-            Input::Hostile(HostileCase { framer, codec, stream, rsched, rcap })
+            Input::Hostile(HostileCase { framer, codec, stream, rsched, rcap, strict: false })
         }
         2 => {
             let framer = framer(&mut u)?;
@@ -100,6 +100,7 @@ pub fn decode(bytes: &[u8]) -> Result<Input> {
                 rsched: frags(&mut u)?,
                 rcap: u.arbitrary::<u8>()? as u16,
                 wcap: u.arbitrary::<u8>()? as u16,
+                strict: false,
             }
             .into()
         }
@@ -124,7 +125,7 @@ pub fn decode(bytes: &[u8]) -> Result<Input> {
                 };
                 msgs.push(Msg { level, ty, data });
             }
-            Input::Cmsg(CmsgCase { buf, prefill, msgs })
+            Input::Cmsg(CmsgCase { buf, prefill, msgs, strict: false })
         }
     })
 }
@@ -162,10 +163,10 @@ pub fn encode_hostile(c: &HostileCase) -> Vec<u8> {
     v
 }
 
-pub fn run(input: &Input) -> Outcome {
+pub fn run(input: &Input, excl: Excl) -> Outcome {
     match input {
-        Input::Hostile(c) => run_hostile(c),
-        Input::Frames(c) => run_frames(c),
-        Input::Cmsg(c) => run_cmsg(c),
+        Input::Hostile(c) => run_hostile(c, excl),
+        Input::Frames(c) => run_frames(c, excl),
+        Input::Cmsg(c) => run_cmsg(c, excl),
     }
 }
